@@ -16,7 +16,10 @@ use std::fmt::Display;
 use std::marker::PhantomData;
 use std::str::FromStr;
 use std::sync::Arc;
+#[cfg(not(feature = "verif"))]
 use std::sync::atomic::{AtomicU64, Ordering};
+#[cfg(feature = "verif")]
+use crate::verif::atomic::{AtomicU64, Ordering};
 
 /// A thread-safe queue of orders with specialized operations
 #[derive(Debug)]
